@@ -238,13 +238,20 @@ def r1_10_context_slice(ctx, prog, rule="R1.10"):
             if re.search(r"::index$", e[1]) and len(e[2]) == 2 and "top:buffer" in repr(e[2][0]):
                 sl = ("index::index", "top:buffer", C.expr_of(pa, e[2][1]))
                 k = show(sl)[:120]
-                ok = isinstance(sl[2], tuple) and sl[2][0] == "Range" and sl[2][1] == 0 and (
-                    sl[2][2] == 20 or (isinstance(sl[2][2], tuple) and sl[2][2][0] == "op:Add" and 20 in sl[2][2][1:] and "RawAttributesIter::pos" in repr(sl[2][2])))
+                # buffer[0..n] or buffer[..n]
+                rng = sl[2]
+                hi = None
+                if isinstance(rng, tuple) and rng[0] == "Range" and rng[1] == 0:
+                    hi = rng[2]
+                elif isinstance(rng, tuple) and rng[0] == "RangeTo" and len(rng) == 2:
+                    hi = rng[1]
+                ok = hi is not None and (
+                    hi == 20 or (isinstance(hi, tuple) and hi[0] == "op:Add" and 20 in hi[1:] and "RawAttributesIter::pos" in repr(hi)))
                 if k not in seen or not ok:
                     seen[k] = ok
     ctx.ob(rule, "context-slice:used", n_ctx >= 1, "%d AttributeDecoderContext::new call(s) receive a slice of buffer" % n_ctx, info["where"])
     for k, ok in sorted(seen.items()):
-        ctx.ob(rule, "context-slice:%s" % ("header-only" if k.endswith("Range(0, 20))") else "header+attributes" if "pos" in k else k[:40]), ok,
+        ctx.ob(rule, "context-slice:%s" % ("header-only" if re.search(r"Range(To)?\((0, )?20\)\)$", k) else "header+attributes" if "pos" in k else k[:40]), ok,
                "decoders receive %s" % k, info["where"])
     ctx.floor(rule, "context slice shapes", len(seen), 2)
 
